@@ -147,6 +147,8 @@ pub struct Budget {
 }
 impl Budget {
     pub fn new(cap_s: u64) -> Self {
+        // PGMC_CAP_S overrides the wall-clock cap (calibration runs)
+        let cap_s = std::env::var("PGMC_CAP_S").ok().and_then(|s| s.parse().ok()).unwrap_or(cap_s);
         Budget { start: Instant::now(), cap: Duration::from_secs(cap_s), hit: AtomicBool::new(false) }
     }
     #[inline]
